@@ -34,16 +34,43 @@ type cfgField struct {
 	Repeated bool   `json:"repeated"`
 	Message  string `json:"message"` // "" = scalar
 	kind     descriptorpb.FieldDescriptorProto_Type
-	IsMap    bool `json:"isMap,omitempty"`
+	IsMap    bool   `json:"isMap,omitempty"`
+	Kind     string `json:"kind,omitempty"` // filled in from kind (for the REST model)
+	JSON     string `json:"json,omitempty"` // JSON name
+}
+
+// kindName is the scalar kind as the REST model needs it.
+func (f cfgField) kindName() string {
+	switch {
+	case f.Message != "":
+		return "message"
+	case f.kind == descriptorpb.FieldDescriptorProto_TYPE_STRING:
+		return "string"
+	case f.kind == descriptorpb.FieldDescriptorProto_TYPE_INT32:
+		return "int32"
+	case f.kind == descriptorpb.FieldDescriptorProto_TYPE_INT64:
+		return "int64"
+	case f.kind == descriptorpb.FieldDescriptorProto_TYPE_BOOL:
+		return "bool"
+	case f.kind == descriptorpb.FieldDescriptorProto_TYPE_BYTES:
+		return "bytes"
+	}
+	return "other"
 }
 
 var cfgMessages = map[string][]cfgField{
-	"Deep":  {{"leaf", false, "", descriptorpb.FieldDescriptorProto_TYPE_STRING, false}},
-	"Inner": {{"id", false, "", descriptorpb.FieldDescriptorProto_TYPE_STRING, false}, {"nums", true, "", descriptorpb.FieldDescriptorProto_TYPE_INT32, false}, {"deep", false, "Deep", 0, false}},
-	"Req": {{"name", false, "", descriptorpb.FieldDescriptorProto_TYPE_STRING, false}, {"n", false, "", descriptorpb.FieldDescriptorProto_TYPE_INT32, false},
-		{"tags", true, "", descriptorpb.FieldDescriptorProto_TYPE_STRING, false}, {"inner", false, "Inner", 0, false}, {"inners", true, "Inner", 0, false},
-		{"data", false, "", descriptorpb.FieldDescriptorProto_TYPE_BYTES, false}},
-	"Resp": {{"name", false, "", descriptorpb.FieldDescriptorProto_TYPE_STRING, false}, {"inner", false, "Inner", 0, false}, {"items", true, "", descriptorpb.FieldDescriptorProto_TYPE_STRING, false}},
+	"Deep":  {cf("leaf", false, "", descriptorpb.FieldDescriptorProto_TYPE_STRING)},
+	"Inner": {cf("id", false, "", descriptorpb.FieldDescriptorProto_TYPE_STRING), cf("nums", true, "", descriptorpb.FieldDescriptorProto_TYPE_INT32), cf("deep", false, "Deep", 0)},
+	"Req": {cf("name", false, "", descriptorpb.FieldDescriptorProto_TYPE_STRING), cf("n", false, "", descriptorpb.FieldDescriptorProto_TYPE_INT32),
+		cf("tags", true, "", descriptorpb.FieldDescriptorProto_TYPE_STRING), cf("inner", false, "Inner", 0), cf("inners", true, "Inner", 0),
+		cf("data", false, "", descriptorpb.FieldDescriptorProto_TYPE_BYTES),
+		cf("book_id", false, "", descriptorpb.FieldDescriptorProto_TYPE_STRING), cf("flag", false, "", descriptorpb.FieldDescriptorProto_TYPE_BOOL),
+		cf("big", false, "", descriptorpb.FieldDescriptorProto_TYPE_INT64)},
+	"Resp": {cf("name", false, "", descriptorpb.FieldDescriptorProto_TYPE_STRING), cf("inner", false, "Inner", 0), cf("items", true, "", descriptorpb.FieldDescriptorProto_TYPE_STRING)},
+}
+
+func cf(name string, repeated bool, message string, kind descriptorpb.FieldDescriptorProto_Type) cfgField {
+	return cfgField{Name: name, Repeated: repeated, Message: message, kind: kind}
 }
 
 type cfgMethod struct {
@@ -65,7 +92,35 @@ var cfgServices = []cfgService{
 	{"cfg.v1.Library", []cfgMethod{{"Get", "Req", "Resp", false}}},
 }
 
+// jsonNameOf: lowerCamelCase, as protoc derives JSON names.
+func jsonNameOf(name string) string {
+	var out []byte
+	up := false
+	for i := 0; i < len(name); i++ {
+		switch {
+		case name[i] == '_':
+			up = true
+		case up && name[i] >= 'a' && name[i] <= 'z':
+			out = append(out, name[i]-32)
+			up = false
+		default:
+			out = append(out, name[i])
+			up = false
+		}
+	}
+	return string(out)
+}
+
 var cfgSchema = buildCfgSchema()
+
+func init() {
+	for name, fs := range cfgMessages {
+		for i := range fs {
+			fs[i].Kind, fs[i].JSON = fs[i].kindName(), jsonNameOf(fs[i].Name)
+		}
+		cfgMessages[name] = fs
+	}
+}
 
 func buildCfgSchema() map[string]protoreflect.ServiceDescriptor {
 	fd := &descriptorpb.FileDescriptorProto{
@@ -80,7 +135,7 @@ func buildCfgSchema() map[string]protoreflect.ServiceDescriptor {
 		md := &descriptorpb.DescriptorProto{Name: proto.String(n)}
 		for i, f := range cfgMessages[n] {
 			fp := &descriptorpb.FieldDescriptorProto{Name: proto.String(f.Name), Number: proto.Int32(int32(i + 1)),
-				Label: descriptorpb.FieldDescriptorProto_LABEL_OPTIONAL.Enum(), JsonName: proto.String(f.Name)}
+				Label: descriptorpb.FieldDescriptorProto_LABEL_OPTIONAL.Enum(), JsonName: proto.String(jsonNameOf(f.Name))}
 			if f.Repeated {
 				fp.Label = descriptorpb.FieldDescriptorProto_LABEL_REPEATED.Enum()
 			}
